@@ -496,5 +496,10 @@ theorem ack_workerAct_update {b b' : BState} {o o' : Oracle} {id : Nat} {w : Int
           exact ⟨rfl, hf, Or.inr (Or.inr ⟨wk, hg, hin, rfl⟩)⟩
         · cases heq
 
+/-- the worker's next position inside a put: the same put, or the command is over -/
+theorem ack_cmd_next {b b' : BState} (h : WTrans b b') {c : PutCmd} (hc : b.w.cmd? = some c) :
+    b'.w.cmd? = some c ∨ b'.w = .recv ∨ b'.w = .dead := by
+  cases h <;> simp_all [WPc.cmd?, finishCmd, rejectCmd]
+
 end B
 end Cached
